@@ -8,7 +8,19 @@ use crate::registry::Dyn;
 
 pub mod c01;
 pub mod c02;
+pub mod c03;
+pub mod c08;
+pub mod c09;
+pub mod c10;
+pub mod c11;
+pub mod c12;
+pub mod c13;
+pub mod c14;
+pub mod c16;
+pub mod c18;
+pub mod c20;
 pub mod idxc;
+pub mod util;
 
 pub struct Plan<'a> {
     pub tier: Tier,
@@ -31,7 +43,10 @@ pub struct PropDef {
 }
 
 pub fn props() -> Vec<PropDef> {
-    vec![c01::DEF, c02::DEF, idxc::C05, idxc::C19]
+    vec![
+        c01::DEF, c02::DEF, c03::DEF, idxc::C05, c08::DEF, c09::DEF, c10::DEF, c11::DEF, c12::DEF, c13::DEF, c14::DEF, c16::DEF, c18::DEF,
+        idxc::C19, c20::DEF,
+    ]
 }
 
 /// Region-level dispatch.
@@ -39,6 +54,16 @@ pub fn dispatch<E: Entry>(prop: &str, ctx: &mut Ctx) {
     match prop {
         "C01" => c01::run::<E>(ctx),
         "C02" => c02::run::<E>(ctx),
+        "C08" => c08::run::<E>(ctx),
+        "C09" => c09::run::<E>(ctx),
+        "C10" => c10::run::<E>(ctx),
+        "C11" => c11::run::<E>(ctx),
+        "C12" => c12::run::<E>(ctx),
+        "C13" => c13::run::<E>(ctx),
+        "C14" => c14::run::<E>(ctx),
+        "C16" => c16::run::<E>(ctx),
+        "C18" => c18::run::<E>(ctx),
+        "C20" => c20::run::<E>(ctx),
         _ => panic!("harness: no region-level monitor for {prop}"),
     }
 }
@@ -47,6 +72,14 @@ pub fn dispatch<E: Entry>(prop: &str, ctx: &mut Ctx) {
 pub fn dispatch_stack<E: Entry, S: IdxC<Idx<E>>>(prop: &str, ctx: &mut Ctx) {
     match prop {
         "C02" => c02::run_stack::<E, S>(ctx),
+        "C03" => c03::run::<E, S>(ctx),
+        "C08" => c08::run_stack::<E, S>(ctx),
+        "C09" => c09::run_stack::<E, S>(ctx),
+        "C10" => c10::run_stack::<E, S>(ctx),
+        "C13" => c13::run_stack::<E, S>(ctx),
+        "C16" => c16::run_stack::<E, S>(ctx),
+        "C18" => c18::run_stack::<E, S>(ctx),
+        "C20" => c20::run_stack::<E, S>(ctx),
         "C19" => idxc::run_stack_share::<E, S>(ctx),
         _ => panic!("harness: no stack-level monitor for {prop}"),
     }
